@@ -9,21 +9,23 @@ extern "C" {
 #include "a/mf.h"
 #include "a/pid_fuzzy.h"
 }
+#include <limits>
+typedef a_real R; // the executors are written against the library's real type (float or double build)
 
 struct MfSet
 {
     unsigned type;
     unsigned npar;
-    double par[4];
+    R par[4];
 };
 struct FuzzyCfg
 {
     unsigned n;                 // order of the rule base
     unsigned opr;               // operator id
-    double L, Lc;               // ranges of e and ec tables
+    R L, Lc;               // ranges of e and ec tables
     std::vector<MfSet> se, sec; // sets of e and ec
-    std::vector<double> me, mec; // flattened parameter tables
-    std::vector<double> kp, ki, kd; // n x n consequents
+    std::vector<R> me, mec; // flattened parameter tables
+    std::vector<R> kp, ki, kd; // n x n consequents
     bool use_kp = true, use_ki = true, use_kd = true;
 };
 
@@ -40,16 +42,16 @@ static inline unsigned mf_npar(unsigned type)
 
 // one ordered partition of [-L, L] into n sets; family: 0 tri (shoulders at the ends as in the repository test),
 // 1 trap, 2 gauss, 3 mixed incl. lins/linz ends, s/z ends, pi, gbell; `wide` scales the widths (more overlap)
-static inline void gen_partition(Tape &t, unsigned n, double L, std::vector<MfSet> &out)
+static inline void gen_partition(Tape &t, unsigned n, R L, std::vector<MfSet> &out)
 {
     unsigned family = t.u8() % 4;
-    double wide = 1.0 + 0.5 * (t.u8() % 4);
-    double step = n > 1 ? 2 * L / (n - 1) : L;
+    R wide = 1.0 + 0.5 * (t.u8() % 4);
+    R step = n > 1 ? 2 * L / (n - 1) : L;
     out.clear();
     for (unsigned k = 0; k < n; ++k)
     {
-        double c = n > 1 ? -L + step * k : 0;
-        double w = step * wide;
+        R c = n > 1 ? -L + step * k : 0;
+        R w = step * wide;
         MfSet s{};
         unsigned fam = family == 3 ? t.u8() % 6 : family;
         bool first = k == 0, last = k + 1 == n;
@@ -95,23 +97,23 @@ static inline void gen_partition(Tape &t, unsigned n, double L, std::vector<MfSe
     }
 }
 
-static inline void flatten(std::vector<MfSet> const &sets, std::vector<double> &tab)
+static inline void flatten(std::vector<MfSet> const &sets, std::vector<R> &tab)
 {
     tab.clear();
     for (auto const &s : sets)
     {
-        tab.push_back(double(s.type));
+        tab.push_back(R(s.type));
         for (unsigned i = 0; i < s.npar; ++i) { tab.push_back(s.par[i]); }
     }
-    tab.push_back(double(A_MF_NUL)); // terminator (never reached for i < n, guards an over-read)
+    tab.push_back(R(A_MF_NUL)); // terminator (never reached for i < n, guards an over-read)
 }
 
 static inline void gen_fuzzy(Tape &t, Ctx &cx, FuzzyCfg &f, bool zero_rules)
 {
     f.n = 2 + t.u8() % 6;
     f.opr = t.u8() % 7;
-    f.L = double(1 + t.u8() % 4);
-    f.Lc = double(1 + t.u8() % 4);
+    f.L = R(1 + t.u8() % 4);
+    f.Lc = R(1 + t.u8() % 4);
     gen_partition(t, f.n, f.L, f.se);
     gen_partition(t, f.n, f.Lc, f.sec);
     flatten(f.se, f.me);
@@ -121,17 +123,17 @@ static inline void gen_fuzzy(Tape &t, Ctx &cx, FuzzyCfg &f, bool zero_rules)
     f.kd.assign(size_t(f.n) * f.n, 0.0);
     if (!zero_rules)
     {
-        for (auto &v : f.kp) { v = double(int(t.u8() % 11) - 5); }
-        for (auto &v : f.ki) { v = double(int(t.u8() % 11) - 5) / 8; }
-        for (auto &v : f.kd) { v = double(int(t.u8() % 11) - 5) / 4; }
+        for (auto &v : f.kp) { v = R(int(t.u8() % 11) - 5); }
+        for (auto &v : f.ki) { v = R(int(t.u8() % 11) - 5) / 8; }
+        for (auto &v : f.kd) { v = R(int(t.u8() % 11) - 5) / 4; }
     }
     uint8_t m = t.u8();
     f.use_kp = (m & 7) != 1;
     f.use_ki = (m & 7) != 2;
     f.use_kd = (m & 7) != 3;
     cx.hash.add(f.n | (f.opr << 8));
-    for (double v : f.me) { cx.hash.addd(v); }
-    for (double v : f.mec) { cx.hash.addd(v); }
+    for (R v : f.me) { cx.hash.addd(v); }
+    for (R v : f.mec) { cx.hash.addd(v); }
 }
 
 // the seven operators, from the formulas documented in pid_fuzzy.h
@@ -150,8 +152,8 @@ static inline long double ref_opr(unsigned opr, long double a, long double b)
     }
 }
 
-// the same formulas in double precision (the weights the library itself can represent)
-static inline double ref_opr_d(unsigned opr, double a, double b)
+// the same formulas in R precision (the weights the library itself can represent)
+static inline R ref_opr_d(unsigned opr, R a, R b)
 {
     switch (opr)
     {
@@ -159,22 +161,22 @@ static inline double ref_opr_d(unsigned opr, double a, double b)
     case A_PID_FUZZY_EQU: return std::sqrt(a * b) * std::sqrt(1 - (1 - a) * (1 - b));
     case A_PID_FUZZY_CAP: return a < b ? a : b;
     case A_PID_FUZZY_CAP_ALGEBRA: return a * b;
-    case A_PID_FUZZY_CAP_BOUNDED: { double c = a + b - 1; return c > 0 ? c : 0; }
+    case A_PID_FUZZY_CAP_BOUNDED: { R c = a + b - 1; return c > 0 ? c : 0; }
     case A_PID_FUZZY_CUP: return a > b ? a : b;
     case A_PID_FUZZY_CUP_ALGEBRA: return a + b - a * b;
-    case A_PID_FUZZY_CUP_BOUNDED: { double c = a + b; return c < 1 ? c : 1; }
+    case A_PID_FUZZY_CUP_BOUNDED: { R c = a + b; return c < 1 ? c : 1; }
     }
 }
 
 // active sets of a table at x (membership > epsilon), using liba's public dispatcher (validated separately by C13a)
-static inline void active_sets(std::vector<MfSet> const &sets, double x, std::vector<unsigned> &idx, std::vector<double> &val)
+static inline void active_sets(std::vector<MfSet> const &sets, R x, std::vector<unsigned> &idx, std::vector<R> &val)
 {
     idx.clear();
     val.clear();
     for (unsigned i = 0; i < sets.size(); ++i)
     {
-        double y = a_mf(sets[i].type, x, sets[i].par);
-        if (y > 2.220446049250313e-16)
+        R y = a_mf(sets[i].type, x, sets[i].par);
+        if (y > std::numeric_limits<R>::epsilon()) // A_REAL_EPSILON of the build
         {
             idx.push_back(i);
             val.push_back(y);
@@ -183,10 +185,10 @@ static inline void active_sets(std::vector<MfSet> const &sets, double x, std::ve
 }
 
 // reference gain offsets: weighted mean of the consequents of the active rules (0 when no rule fires)
-static inline void ref_gains(FuzzyCfg const &f, double e, double ec, long double out[3], bool *any)
+static inline void ref_gains(FuzzyCfg const &f, R e, R ec, long double out[3], bool *any)
 {
     std::vector<unsigned> ie, iec;
-    std::vector<double> ve, vec;
+    std::vector<R> ve, vec;
     active_sets(f.se, e, ie, ve);
     active_sets(f.sec, ec, iec, vec);
     long double sw = 0, s[3] = {0, 0, 0};
